@@ -437,3 +437,41 @@ twin('c19-lazy-commuted', 'C19', SD, f'{DQ}.GetDataItemWithMaxGlobalR', 'while b
      'while bestItem[0].globalR != bestItem[1]:')
 twin('c19-lazy-unpacked', 'C19', SD, f'{DQ}.GetDataItemWithMaxGlobalR', 'while bestItem[1] != bestItem[0].globalR:',
      'while not (bestItem[1] == bestItem[0].globalR):')
+
+# ----------------------------------------------------------------------------- C16
+fire('c16-except-exception', 'C16', P, 'Process.Solve', 'except BaseException:', 'except Exception:', 'R16.1')
+fire('c16-except-narrow', 'C16', P, 'Process.Solve', 'except BaseException:', 'except (ValueError, ArithmeticError):',
+     'R16.1')
+fire('c16-reraise', 'C16', P, 'Process.Solve', "            print('Exception was thrown')",
+     "            print('Exception was thrown')\n            raise", 'R16.1')
+fire('c16-no-try', 'C16', P, 'Process.Solve',
+     "        try:\n            while not self.method.CheckStopCondition():\n                self.DoGlobalIteration()\n                # print(self.method.min_delta, self.method.parameters.eps)\n            # print(self.method.min_delta, self.method.parameters.eps)\n            # print(self.method.CheckStopCondition())\n        except BaseException:\n            print('Exception was thrown')",
+     "        while not self.method.CheckStopCondition():\n            self.DoGlobalIteration()", 'R16.1')
+fire('c16-resume', 'C16', P, 'Process.Solve',
+     "        try:\n            while not self.method.CheckStopCondition():\n                self.DoGlobalIteration()\n                # print(self.method.min_delta, self.method.parameters.eps)\n            # print(self.method.min_delta, self.method.parameters.eps)\n            # print(self.method.CheckStopCondition())\n        except BaseException:\n            print('Exception was thrown')",
+     "        while not self.method.CheckStopCondition():\n            try:\n                self.DoGlobalIteration()\n            except BaseException:\n                print('Exception was thrown')\n                continue",
+     'R16.1')
+twin('c16-try-inside-loop', 'C16', P, 'Process.Solve',
+     "        try:\n            while not self.method.CheckStopCondition():\n                self.DoGlobalIteration()\n                # print(self.method.min_delta, self.method.parameters.eps)\n            # print(self.method.min_delta, self.method.parameters.eps)\n            # print(self.method.CheckStopCondition())\n        except BaseException:\n            print('Exception was thrown')",
+     "        while not self.method.CheckStopCondition():\n            try:\n                self.DoGlobalIteration()\n            except BaseException:\n                print('Exception was thrown')\n                break")
+twin('c16-bare-except', 'C16', P, 'Process.Solve', 'except BaseException:', 'except:')
+fire('c16-count-before', 'C16', M, 'Method.CalculateFunctionals',
+     '        point = self.task.Calculate(point, 0)\n',
+     '        self.searchData.solution.numberOfGlobalTrials += 1\n        point = self.task.Calculate(point, 0)\n',
+     None, also=[(M, 'Method.CalculateFunctionals', '        # Обновление числа испытаний\n        self.searchData.solution.numberOfGlobalTrials += 1\n', '')])
+fire('c16-insert-before', 'C16', P, 'Process.DoGlobalIteration',
+     '                self.method.CalculateFunctionals(newpoint)\n                self.method.UpdateOptimum(newpoint)\n                self.method.RenewSearchData(newpoint, oldpoint)',
+     '                self.method.RenewSearchData(newpoint, oldpoint)\n                self.method.CalculateFunctionals(newpoint)\n                self.method.UpdateOptimum(newpoint)',
+     None)
+fire('c16-finalize-before', 'C16', P, 'Process.DoGlobalIteration',
+     '                newpoint, oldpoint = self.method.CalculateIterationPoint()\n',
+     '                newpoint, oldpoint = self.method.CalculateIterationPoint()\n                self.method.FinalizeIteration()\n',
+     None, also=[(P, 'Process.DoGlobalIteration', '                self.method.RenewSearchData(newpoint, oldpoint)\n                self.method.FinalizeIteration()\n', '                self.method.RenewSearchData(newpoint, oldpoint)\n')])
+fire('c16-delta-in-selection', 'C16', M, 'Method.CalculateIterationPoint', '        return new, old',
+     '        old.delta = Method.CalculateDelta(newx, old.GetX(), self.dimension)\n        return new, old', 'R16.2')
+fire('c16-alltrials-before', 'C16', M, 'Method.CalculateIterationPoint', '        return new, old',
+     '        self.searchData._allTrials.append(new)\n        return new, old', 'R16.2')
+fire('c16-setz-before', 'C16', M, 'Method.CalculateFunctionals', '        point = self.task.Calculate(point, 0)\n',
+     '        point.SetIndex(0)\n        point = self.task.Calculate(point, 0)\n', None)
+twin('c16-accuracy-before', 'C16', M, 'Method.CalculateIterationPoint', '        return new, old',
+     '        self.min_delta = min(old.delta, self.min_delta)\n        return new, old')
